@@ -23,7 +23,8 @@ CHECKS = {
    category="other",
    text="patches_from_ed_script and patch_lines are verified against recursive specification functions (spec parser of the ed "
         "script incl. shared-iterator text blocks, fold of slice assignments) for all scripts and line lists, str and bytes: "
-        "loop invariants, exceptional postcondition 'ValueError iff malformed/unterminated'. The end-to-end clause against an "
+        "loop invariants, exceptional postcondition 'ValueError iff malformed/unterminated'; the command patterns _patch_re / "
+        "_patch_re_b accept exactly digits[,digits](a|c|d)[newline] (regex-to-SMT on the real pattern objects). The end-to-end clause against an "
         "independent diff is a bounded stand-in (difflib and diff -e).",
    design="DESIGN.md §5 C18",
    note="Trusted: speclib models (iterators, list slice assignment, re.match as uninterpreted matches?/groups functions with the "
@@ -142,7 +143,9 @@ CHECKS.update({
         text="The rejection clause is proved for all member-name lists from the AST of the real DebFile.__init__ (part discovery with the "
              "nested compressed_part_name; sets as finite conditional sets): it returns normally exactly when debian-binary and exactly one "
              "candidate per part are present, raises DebError otherwise, never KeyError, and stores members with a candidate name - "
-             "relative to assumed contracts of the ArFile interface which are what C06 proves. Reading back control fields, scripts, "
+             "relative to assumed contracts of the ArFile interface which are what C06 proves; the ArMember layer the parts are read "
+             "through (read / readline / readlines / seek / tell == io.BytesIO over the member's bytes for every position of the shared "
+             "file object; from_file) is re-verified here with C06's contracts. Reading back control fields, scripts, "
              "md5sums and contents in the three spellings goes through tarfile and the compressors (external) and is decided by a bounded "
              "stand-in: .deb files assembled in memory over 5x5 compressions, member orders, script subsets, names with spaces, binary "
              "contents; structurally defective member sets.",
@@ -152,8 +155,12 @@ CHECKS.update({
              "paragraph unchanged) are verified from their AST. The anti-drift lemmas between the value validator and the parser's patterns are PROVED for all lines of the stated character "
              "domain by SMT on the real pattern objects (an accepted continuation line never matches _single/_multi/_gpgre/the empty-line "
              "pattern, a non-blank one matches _multidata and never the whitespace paragraph separator). The composition validator -> dump "
-             "-> parser is decided by a bounded stand-in: every value of length <= 5/6 over {a, ':', '#', space, TAB, CR, LF}.",
-        technique="regex-to-SMT language lemmas on the real patterns + bounded stand-in (exhaustive short values)"),
+             "-> parser is decided by a bounded stand-in: every value of length <= 5/6 over {a, ':', '#', space, TAB, CR, LF}. Also verified from "
+             "their ASTs: _dump_format / get_as_string (one entry per key, the value as stored), split_gpg_and_payload and the "
+             "field-collecting loop of _internal_parser, and the containers an accepted name is filed in (LinkedList / OrderedSet of "
+             "debian._util with C09's contracts: an operation that fails leaves table and order consistent).",
+        technique="contract-based deductive verification of validator, writer, reader loop and containers (path-wise VCs from the real AST, "
+                  "SMT) + regex-to-SMT language lemmas on the real patterns + bounded stand-in (exhaustive short values)"),
  "C11": dict(bounded_only("", "DESIGN.md §5 C11"),
         text="The containers the edits are built on (LinkedList and OrderedSet of debian._util) are proved from the real AST against "
              "an abstract sequence (same contracts as C09: representation invariant preserved, each operation a list insert / delete / "
